@@ -101,6 +101,8 @@ fn main() {
             let (shard, nshards) = arg(&args, "--shard").and_then(|s| s.split_once('/')).map(|(a, b)| (a.parse().unwrap_or(0), b.parse().unwrap_or(1))).unwrap_or((0, 1));
             let build = arg(&args, "--build").unwrap_or("release");
             let mut c = Ctx::new(&prop, tier, seed, shard, nshards, build);
+            let hang_secs: u64 = arg(&args, "--hang-secs").and_then(|s| s.parse().ok()).unwrap_or(180);
+            ctx::start_watchdog(arg(&args, "--out").map(|s| s.to_string()), prop.clone(), hang_secs);
             // pinned regression cases first (shard 0 only)
             if let Some(f) = arg(&args, "--regress") {
                 if shard == 0 {
@@ -121,6 +123,7 @@ fn main() {
                 eprintln!("unknown property {}", prop);
                 std::process::exit(2);
             }
+            ctx::watchdog_off();
             if let Some(f) = arg(&args, "--keys") {
                 let mut keys: Vec<u64> = c.nontrivial.iter().copied().collect();
                 keys.sort_unstable();
@@ -174,6 +177,45 @@ fn main() {
                 Some((c, sc)) => println!("ropt   cap {} {} -> {:?}", c, sc.describe(), refimpl::enc::encode(&input, &sc).map(|x| x.0)),
                 None => println!("ropt   none"),
             }
+        }
+        Some("miri") => {
+            // tiny smoke workload for `cargo +nightly miri run`: exercises the arrayvec / alloc paths reached
+            // through the crate (C40/Text/EDIFACT encoders, planner, RS codec, placement, path)
+            let shard: usize = args.get(2).and_then(|s| s.parse().ok()).unwrap_or(0);
+            let n: usize = args.get(3).and_then(|s| s.parse().ok()).unwrap_or(1);
+            let inputs: [&[u8]; 12] = [b"Hello, World!", b"ABCDEF123456abcdef", b"\x80\x81\x82\xff", b"A1B2C3*>\r*>\r", b"aimaimaim~", b"ABCDEFGH12345678", b"[)>\x1e05\x1d01\x1e\x04", b".=<:\"&^#?3117247", b"", b"9", b"abc DEF ghi", b"\r*>\r*>AB"];
+            let masks: [u8; 6] = [63, 2, 4, 17, 62, 40];
+            let mut ops = 0u32;
+            let mut k = 0usize;
+            for inp in inputs.iter() {
+                for m in masks.iter() {
+                    k += 1;
+                    if k % n != shard {
+                        continue;
+                    }
+                    let r = datamatrix::DataMatrixBuilder::new().with_encodation_types(util::modes_from_mask(*m)).encode(inp);
+                    ops += 1;
+                    if let Ok(dm) = r {
+                        let bm = dm.bitmap();
+                        let back = datamatrix::DataMatrix::decode(bm.bits(), bm.width());
+                        assert_eq!(back.as_deref(), Ok(&inp[..]), "miri smoke: round trip");
+                        let _ = bm.path();
+                        let mut cw = dm.codewords().to_vec();
+                        cw[0] ^= 0x5a;
+                        let _ = datamatrix::errorcode::decode_error(&mut cw, dm.size);
+                        ops += 4;
+                    }
+                }
+            }
+            for s in [&[230u8, 0, 1][..], &[240, 1, 2, 3], &[231, 0, 9], &[241, 200, 3, 4], &[239, 255, 255, 254]] {
+                k += 1;
+                if k % n == shard {
+                    let _ = datamatrix::data::decode_data(s);
+                    let _ = datamatrix::data::decode_str(s);
+                    ops += 2;
+                }
+            }
+            println!("miri smoke ok shard {}/{} operations {}", shard, n, ops);
         }
         Some("distinct") => {
             // count the union of sorted u64 key files
